@@ -77,9 +77,14 @@ func (c09) Gen(rng *rand.Rand, tier string, idx int) Case {
 		c.Cfg = append(c.Cfg, []string{"having", strconv.Itoa(len(seq)/2 + 1)})
 		c.Stat = append(c.Stat, "sql-having")
 	}
-	reaps := 0
+	reaps, mgmt := 0, 0
 	for i, k := range seq {
 		c.Ops = append(c.Ops, append([]string{"row", strconv.Itoa(i + 1)}, pool[k]...))
+		if idx%4 >= 2 && rng.Intn(6) == 0 {
+			// management calls that must not touch the waiting rows: Stream().GetStats/ResetStats, TriggerWindow
+			c.Ops = append(c.Ops, []string{[]string{"stats", "trig"}[rng.Intn(2)]})
+			mgmt++
+		}
 		if mode == "win" {
 			switch r := rng.Intn(40); {
 			case r == 0 && idx%2 == 1:
@@ -94,6 +99,9 @@ func (c09) Gen(rng *rand.Rand, tier string, idx int) Case {
 	c.Stat = append(c.Stat, "mode-"+mode, fmt.Sprintf("N-%d", n), fmt.Sprintf("keys-%d", len(pool)), fmt.Sprintf("arity-%d", arity))
 	if reaps > 0 {
 		c.Stat = append(c.Stat, "with-reap")
+	}
+	if mgmt > 0 {
+		c.Stat = append(c.Stat, "with-management-calls")
 	}
 	return c
 }
@@ -207,6 +215,14 @@ func c09Win(c Case, arity, n int) [][][]string {
 			}
 			out = append(out, w.pending)
 			w.pending = nil
+		case "stats", "trig":
+			// the window-level management calls: GetStats / ResetStats, Trigger
+			if op[0] == "stats" {
+				cw.GetStats()
+			} else {
+				cw.Trigger()
+			}
+			out = append(out, nil)
 		default:
 			out = append(out, [][]string{{"bad-op"}})
 		}
@@ -242,6 +258,14 @@ func c09SQL(c Case, arity, n int) [][][]string {
 		case "row":
 			id, _ := strconv.Atoi(op[1])
 			s.Emit(c09Row(id, op[2:], nest))
+			out = append(out, nil)
+		case "stats":
+			time.Sleep(3 * time.Millisecond) // let the rows emitted so far reach the window (no result depends on it)
+			s.Stream().GetStats()
+			s.Stream().ResetStats()
+			out = append(out, nil)
+		case "trig":
+			s.TriggerWindow()
 			out = append(out, nil)
 		case "flush":
 			// sentinel rows (ids -1…-n, own key tuple): FIFO all the way to the synchronous sink
